@@ -29,6 +29,7 @@ type Case struct {
 	Actions [][]int       `json:"actions"`       // [revision][object]: 0 leave, 1 define A, 2 define B, 3 free
 	Knobs   pdffile.Knobs `json:"knobs"`
 	Length  *LengthCase   `json:"length_case,omitempty"`
+	FreeMax bool          `json:"free_generation_65535,omitempty"` // free entries carry generation 65535
 }
 
 // LengthCase is a case of the /Length clause.
@@ -70,7 +71,7 @@ type objState struct {
 // build applies the actions and returns the revisions for the serialiser and
 // the final model state; ok is false for action vectors that are not
 // meaningful (freeing something that is not in use).
-func build(kinds []string, actions [][]int) (revs []pdffile.Revision, final []objState, ok bool) {
+func build(kinds []string, actions [][]int, freeMax bool) (revs []pdffile.Revision, final []objState, ok bool) {
 	nObj := len(actions[0])
 	st := make([]objState, nObj)
 	for ri, kind := range kinds {
@@ -92,6 +93,10 @@ func build(kinds []string, actions [][]int) (revs []pdffile.Revision, final []ob
 				if !s.defined {
 					s.gen = 0
 				}
+				if s.defined && !s.inUse && s.gen == 65535 {
+					// freed with the "never reuse" generation: the number is retired
+					return nil, nil, false
+				}
 				s.defined, s.inUse, s.v = true, true, v
 				rev.Objs = append(rev.Objs, pdffile.ObjDef{Num: num, Gen: s.gen, Val: v.val, Stream: v.stream})
 			case 3:
@@ -100,6 +105,9 @@ func build(kinds []string, actions [][]int) (revs []pdffile.Revision, final []ob
 				}
 				s.inUse = false
 				s.gen++
+				if freeMax {
+					s.gen = 65535
+				}
 				rev.Objs = append(rev.Objs, pdffile.ObjDef{Num: num, Gen: s.gen, Free: true})
 			}
 		}
@@ -184,7 +192,7 @@ func judge(file []byte, final []objState, kinds []string, k pdffile.Knobs) *fail
 		} else {
 			num = 37 // never mentioned anywhere
 		}
-		for g := 0; g <= 2; g++ {
+		for _, g := range []int{0, 1, 2, 65535} {
 			ref := pdf.NewReference(num, uint16(g))
 			got, err := r.Get(ref, true)
 			if err != nil {
@@ -370,9 +378,9 @@ type runner struct {
 	selfFail bool
 }
 
-func (rn *runner) one(kinds []string, actions [][]int, k pdffile.Knobs, space string) {
+func (rn *runner) one(kinds []string, actions [][]int, k pdffile.Knobs, space string, freeMax bool) {
 	r := rn.r
-	revs, final, ok := build(kinds, actions)
+	revs, final, ok := build(kinds, actions, freeMax)
 	if !ok {
 		return
 	}
@@ -388,7 +396,7 @@ func (rn *runner) one(kinds []string, actions [][]int, k pdffile.Knobs, space st
 	}
 	if f := judge(file, final, kinds, k); f != nil {
 		r.Outcome("fail:" + strings.SplitN(f.fp, ":", 2)[0])
-		r.Violation(f.fp, f.what, Case{Kinds: kinds, Actions: cloneActions(actions), Knobs: k})
+		r.Violation(f.fp, f.what, Case{Kinds: kinds, Actions: cloneActions(actions), Knobs: k, FreeMax: freeMax})
 		return
 	}
 	r.Outcome("ok:" + space)
@@ -518,7 +526,7 @@ func Run(tier string) int {
 	r := ev.New("C04", tier, "model_checking", budget)
 	rn := &runner{r: r}
 	r.Rule("a case is a revision history (per revision and object number one of leave / define value A / define value B / free, per revision a section kind table / xref stream / hybrid) plus a rendering (knobs of the independent serialiser: bytes before the header, white-space and comment style, EOL, hex strings, #-escaped names, split subsections / Index, threaded free list, /W, object streams); all histories of the stated shape are enumerated, renderings as the full single (and pair) deviations from the default; states = histories accepted by the model, transitions = files opened, every one is read by the real Reader; distinct = distinct (history, rendering) pairs")
-	r.Assume("the files come from ref/pdffile's serialiser, validated per case by ref/pdffile's reader (self-check, exit 2 on disagreement)", "hybrid sections list hidden objects only in the /XRefStm stream (not as free entries in the table)", "the model: apply the revisions oldest to newest; a freed number is reused with the generation of its free entry")
+	r.Assume("the files come from ref/pdffile's serialiser, validated per case by ref/pdffile's reader (self-check, exit 2 on disagreement)", "hybrid sections list hidden objects only in the /XRefStm stream (not as free entries in the table)", "the model: apply the revisions oldest to newest; a freed number is reused with the generation of its free entry; a number freed with generation 65535 is never reused")
 
 	type job struct {
 		kinds [][]string
@@ -526,23 +534,28 @@ func Run(tier string) int {
 		objs  int
 		knobs []pdffile.Knobs
 		space string
+		fmax  bool // free entries carry generation 65535
 	}
 	dflt := []pdffile.Knobs{{}, {ObjStm: true}}
 	var jobs []job
-	jobs = append(jobs, job{kindVectors(1), 1, 4, knobDeviations(2), "1rev x 4obj x knob pairs"})
-	jobs = append(jobs, job{kindVectors(2), 2, 2, knobDeviations(ev.Pick(r, 1, 2)), "2rev x 2obj x knob deviations"})
-	jobs = append(jobs, job{kindVectors(2), 2, 4, dflt, "2rev x 4obj"})
-	jobs = append(jobs, job{kindVectors(3), 3, 2, dflt, "3rev x 2obj"})
+	jobs = append(jobs, job{kindVectors(1), 1, 4, knobDeviations(2), "1rev x 4obj x knob pairs", false})
+	jobs = append(jobs, job{kindVectors(2), 2, 2, knobDeviations(ev.Pick(r, 1, 2)), "2rev x 2obj x knob deviations", false})
+	jobs = append(jobs, job{kindVectors(2), 2, 4, dflt, "2rev x 4obj", false})
+	jobs = append(jobs, job{kindVectors(3), 3, 2, dflt, "3rev x 2obj", false})
+	// the same with free entries that carry the boundary generation 65535 ("never reuse")
+	jobs = append(jobs, job{kindVectors(2), 2, 2, knobDeviations(1), "2rev x 2obj x knob deviations, free generation 65535", true})
+	jobs = append(jobs, job{kindVectors(3), 3, 2, dflt, "3rev x 2obj, free generation 65535", true})
 	if r.Thorough() {
-		jobs = append(jobs, job{kindVectors(3), 3, 3, dflt, "3rev x 3obj"})
-		jobs = append(jobs, job{kindVectors(3), 3, 2, knobDeviations(1), "3rev x 2obj x knob deviations"})
+		jobs = append(jobs, job{kindVectors(3), 3, 3, dflt, "3rev x 3obj", false})
+		jobs = append(jobs, job{kindVectors(3), 3, 2, knobDeviations(1), "3rev x 2obj x knob deviations", false})
+		jobs = append(jobs, job{kindVectors(3), 3, 2, knobDeviations(1), "3rev x 2obj x knob deviations, free generation 65535", true})
 	}
 	var dims []string
 	for _, j := range jobs {
 		j := j
 		var vecs [][][]int
 		actionVectors(j.revs, j.objs, func(a [][]int) {
-			if _, _, ok := build(j.kinds[0], a); ok {
+			if _, _, ok := build(j.kinds[0], a, j.fmax); ok {
 				// first revision cannot free; build rejects those
 				vecs = append(vecs, cloneActions(a))
 			}
@@ -554,7 +567,7 @@ func Run(tier string) int {
 			}
 			for _, kinds := range j.kinds {
 				for _, k := range j.knobs {
-					rn.one(kinds, vecs[i], k, j.space)
+					rn.one(kinds, vecs[i], k, j.space, j.fmax)
 				}
 				r.State(1)
 			}
@@ -612,7 +625,7 @@ func Replay(path string) int {
 	if cs.Length != nil {
 		rn.length(cs.Length.Body, cs.Length.Defect, cs.Knobs)
 	} else {
-		rn.one(cs.Kinds, cs.Actions, cs.Knobs, "replay")
+		rn.one(cs.Kinds, cs.Actions, cs.Knobs, "replay", cs.FreeMax)
 	}
 	return r.Finish()
 }
